@@ -168,10 +168,10 @@ def _run_case(cls, case_idx, timeout_ms=None):
         fv = make_fv(itp, cls.target) if cls.target else None
         cx.fn_stack.append(cls.target or cls.name)
         try:
-            if fv is not None:
+            if fv is not None and not getattr(c, "use_body", False):
                 v = itp.call_function(fv, list(args), dict(kwargs), use_summary=False)
             else:
-                v = c.body(itp, case, args, kwargs)
+                v = c.body(itp, case, args, kwargs)   # a history of calls of the target (or a lemma without a target)
             out = Out("return", v)
         except ContractStop as cs:
             out = Out("stopped", msg=str(cs))
